@@ -356,7 +356,7 @@ func (r *runState) startCall(id int, c Call) {
 func runScenario(sc *Scenario, maxSteps int) *Result {
 	s := sched.New()
 	if sc.ParkState {
-		s.ParkAlso("state")
+		s.ParkAlso("state_enter") // inside the state mutex, status written, health / exit-code side effects not yet
 	}
 	r := &runState{sc: sc, s: s, spec: map[string]*ProcSpec{}, launchN: map[string]int{}, probeN: map[string]int{},
 		lineN: map[string]int{}, sigged: map[*fakecmd.Cmd]bool{}, rng: rand.New(rand.NewSource(sc.Seed)),
@@ -608,9 +608,38 @@ func genScenario(rng *rand.Rand, id int, kind string) *Scenario {
 	}
 	sc.Polite = rng.Intn(100) < politePct
 	sc.ParkState = rng.Intn(3) == 0
+	if kind == "skipchain" {
+		// a chain under "completed successfully" whose head fails in one of the three ways (non-zero exit, start
+		// error, skipped because ITS dependency failed): everything below must be skipped, at any depth
+		sc.ParkState = rng.Intn(4) > 0
+		for i := range sc.Procs {
+			ps := &sc.Procs[i]
+			ps.Deps, ps.BadDir, ps.StartFail, ps.Disabled, ps.Forever = nil, false, false, false, false
+			ps.ReadyProbe, ps.ReadyLine, ps.Probes, ps.Lines = false, false, nil, nil
+			if i == 0 {
+				ps.Policy, ps.MaxRestarts = "no", 0
+				switch rng.Intn(3) {
+				case 0:
+					ps.Codes = []int{1 + rng.Intn(3)}
+				case 1:
+					ps.StartFail = true
+				case 2:
+					ps.BadDir = true
+				}
+				continue
+			}
+			ps.Deps = []DepSpec{{Name: fmt.Sprintf("p%d", i-1), Cond: "success"}}
+			if i > 1 && rng.Intn(3) == 0 {
+				ps.Deps = append(ps.Deps, DepSpec{Name: "p0", Cond: []string{"completed", "success"}[rng.Intn(2)]})
+			}
+			ps.Codes = []int{0}
+		}
+	}
 	sc.Calls = []Call{{Op: "run"}}
 	nm := func() string { return sc.Procs[rng.Intn(len(sc.Procs))].Name }
 	switch kind {
+	case "skipchain":
+		// nothing lives for ever: Run() returns by itself
 	case "ordered":
 		if rng.Intn(3) > 0 {
 			sc.Calls = append(sc.Calls, Call{Op: []string{"stop", "stop", "restart"}[rng.Intn(3)], Name: sc.Procs[1+rng.Intn(len(sc.Procs)-1)].Name})
